@@ -79,6 +79,13 @@ _REPEATED_PAIR_DISCOUNT_IN_CRYSTALS_SCORE = 0.5
 # Maximum number of swaps for the crystals algorithm.
 _MAX_CRYSTALS_SWAPS = 1000
 
+# Verification hook (off unless TENSORFLOW_LATTICE_VERIF=1): records the intermediate results of
+# _get_final_crystal_lattices so that recorded executions can be checked against a specification.
+import os as _verif_os  # pylint: disable=g-import-not-at-top
+_VERIF = _verif_os.environ.get('TENSORFLOW_LATTICE_VERIF') == '1'
+_VERIF_TRACE = []
+
+
 
 def _input_calibration_regularizers(model_config, feature_config):
   """Returns pwl layer regularizers defined in the model and feature configs."""
@@ -1247,6 +1254,8 @@ def _get_final_crystal_lattices(model_config, prefitting_model_config,
     lattices[best_candidate_lattice_to_add_to].append(feature_to_be_added)
 
   # Apply swapping operations to increase within-lattice torsion.
+  if _VERIF:
+    _VERIF_TRACE.append(('placed', [[int(f) for f in l] for l in lattices]))
   changed = True
   iteration = 0
   while changed:
